@@ -282,10 +282,32 @@ fn deviations<G: AffineRepr>(env: &Env<G>, prog: &Program, vs: &[G], n_gates: us
     v
 }
 
+/// A statement that is symmetric in its commitments (sum of all = constant, plus a product of the
+/// sum with itself), with the identity commitment (value 0, blinding 0) at position `zero_at`.
+fn symmetric_program(seed: u64, m: usize, zero_at: usize) -> Program {
+    let mut r = R::new(seed);
+    let mut ops = vec![];
+    for i in 0..m {
+        if i == zero_at {
+            ops.push(Op::Commit { v: Sc::I(0), blind: Sc::I(0) });
+        } else {
+            ops.push(Op::Commit { v: Sc::R(r.u64() >> 20), blind: Sc::R(r.u64() >> 20) });
+        }
+    }
+    let mut sum = Lx::V(0);
+    for i in 1..m {
+        sum = Lx::Add(Box::new(sum), Box::new(Lx::V(i)));
+    }
+    ops.push(Op::Constrain { lc: sum.clone(), fix: Fix::Balance });
+    ops.push(Op::Multiply { l: sum.clone(), r: sum.clone() });
+    ops.push(Op::Constrain { lc: Lx::V(m + 2), fix: Fix::Balance });
+    Program { tlabel: 0, pre: vec![], ops }
+}
+
 fn run_case<G: AffineRepr>(env: &Env<G>, c: &Case) -> CaseOut {
     let mut o = CaseOut::new();
     o.evals = 0;
-    let prog = gen_program(c.seed, &c.cfg);
+    let prog = if c.cfg.max_terms == 9999 { symmetric_program(c.seed, c.cfg.m.max(2), c.cfg.q % c.cfg.m.max(2)) } else { gen_program(c.seed, &c.cfg) };
     let po = prove::<G>(env, &prog, &[], &env.bp, c.seed ^ 6);
     let proof = match &po.proof {
         Ok(p) => p,
@@ -364,6 +386,12 @@ fn cases(ctx: &Ctx, curve: &str) -> Vec<Case> {
     ];
     for cfg in forced {
         v.push(Case { curve: curve.into(), seed: r.u64(), cfg, only: None });
+    }
+    // symmetric statements with an identity commitment at every position (marker: max_terms = 9999)
+    for m in 2..=4usize {
+        for z in 0..m {
+            v.push(Case { curve: curve.into(), seed: r.u64(), cfg: GenCfg { m, q: z, max_terms: 9999, ..GenCfg::simple(1, 0) }, only: None });
+        }
     }
     for _ in 0..n {
         let mut cfg = random_cfg(&mut r, 12);
